@@ -507,7 +507,7 @@ def solve_piece(hyps_qf, hyps_full, goal, timeout_ms, cases=()):
     hyps_qf = list(hyps_qf) + nx
     hyps_full = list(hyps_full) + nx
     hq = hyps_qf + smt.pow2_axioms(hyps_qf + [goal])
-    v, info = smt.check(hq, goal, min(timeout_ms, 8000), want_model=False)
+    v, info = smt.check(hq, goal, max(8000, timeout_ms // 2), want_model=False)
     tsum += info.get("time", 0)
     if v == "unsat":
         info["time"] = tsum
